@@ -2,6 +2,7 @@ package wire
 
 import (
 	"context"
+	"io"
 	"net"
 
 	"github.com/lib/pq/oid"
@@ -246,6 +247,91 @@ func VerifH04b() {
 	vAssert("wire-wellformed-prefix", vWireOK(conn.out))
 	if mode == 0 {
 		vReach("input-ended")
+	}
+}
+
+// ---------------------------------------------------------------------------
+// H04t — the transport starts failing, for good, at a point where the server
+// waits for the client (C04): between two messages of a session, while it
+// waits for the password, or while a handler reads COPY data (text reader or
+// binary row reader, after zero or one CopyData). The fault's identity is the
+// solver's choice — a plain error, a timeout-kind net.Error (an expired read
+// deadline), io.ErrClosedPipe, io.ErrUnexpectedEOF, net.ErrClosed. In
+// every case handling of the connection ends: serve returns, the connection is
+// closed, nothing panics, the handler's read loop gets an error.
+// ---------------------------------------------------------------------------
+func VerifH04t() {
+	where := vChoose(4) // 0 command loop, 1 password wait, 2 COPY text, 3 COPY binary
+	fault := vFaultKind()
+	copyReads := 0
+	var copyErr error
+	stmt := func(ctx context.Context, dw DataWriter, params []Parameter) error {
+		if where < 2 {
+			return dw.Complete("T")
+		}
+		format := TextFormat
+		if where == 3 {
+			format = BinaryFormat
+		}
+		cr, err := dw.CopyIn(format)
+		if err != nil {
+			return err
+		}
+		if where == 3 {
+			br, err := NewBinaryColumnReader(ctx, cr)
+			if err != nil {
+				return err
+			}
+			for k := 0; k < 4; k++ {
+				copyReads++
+				if _, copyErr = br.Read(ctx); copyErr != nil {
+					return copyErr
+				}
+			}
+			return dw.Complete("COPY")
+		}
+		for k := 0; k < 4; k++ {
+			copyReads++
+			if copyErr = cr.Read(); copyErr != nil {
+				return copyErr
+			}
+		}
+		return dw.Complete("COPY")
+	}
+	parse := func(ctx context.Context, query string) (PreparedStatements, error) {
+		return Prepared(NewStatement(stmt, WithColumns(vTextColumns(1)))), nil
+	}
+	opts := []OptionFn{MessageBufferSize(64)}
+	input := vStartup(vKV([]byte("user"), []byte("u")))
+	if where == 1 {
+		opts = append(opts, SessionAuthStrategy(ClearTextPassword(func(ctx context.Context, db, user, pw string) (context.Context, bool, error) {
+			return ctx, true, nil
+		})))
+	} else {
+		input = vCat(input, vMsgBytes('Q', vCStr([]byte("q"))))
+	}
+	if where >= 2 && nondetBool() {
+		if where == 3 {
+			input = vCat(input, vMsgBytes('d', vCat(vCopyHeader, []byte{0, 1, 0, 0, 0, 1, 'v'})))
+		} else {
+			input = vCat(input, vMsgBytes('d', []byte("row\n")))
+		}
+		vReach("fault-after-a-copydata-message")
+	}
+	srv, err := NewServer(parse, opts...)
+	vAssert("newserver-ok", err == nil)
+	conn := vNewConn(input)
+	conn.in.endErr = fault
+	serr := srv.serve(context.Background(), conn)
+	vAssert("serve-returns-with-an-error", serr != nil)
+	vAssert("connection-closed", conn.closed >= 1)
+	vAssert("wire-wellformed-prefix", vWireOK(conn.out))
+	if where >= 2 {
+		vAssert("copy-read-loop-gets-an-error", copyErr != nil && copyErr != io.EOF)
+		vReach("fault-during-copy-in")
+	}
+	if where == 1 {
+		vReach("fault-while-waiting-for-the-password")
 	}
 }
 
